@@ -203,6 +203,24 @@ theorem vsize_gpt (s0 : Insp) (h0 : Insp.init .gpt = some s0) (chunks : List Byt
   · simp at h0
   · simp only [Option.some.injEq] at h0; subst h0; rfl
 
+/-- **vsize_qed** — QED declares no size of its own (the inspector inherits the base class): the stream
+    length, whatever the bytes and the chunking -/
+theorem vsize_qed (s0 : Insp) (h0 : Insp.init .qed = some s0) (chunks : List Bytes) :
+    virtualSize (runChunks s0 chunks).1 = .ok (chunks.flatten.length : Int) := by
+  rw [run_plain_eq_spec .qed rfl s0 h0]
+  unfold Insp.init at h0
+  split at h0
+  · simp at h0
+  · simp only [Option.some.injEq] at h0; subst h0; rfl
+
+/-- the three formats without a declared size agree with one another on every stream and chunking -/
+theorem vsize_undeclared_agree (r g q : Insp) (hr : Insp.init .raw = some r) (hg : Insp.init .gpt = some g)
+    (hq : Insp.init .qed = some q) (chunks chunks' : List Bytes) (h : chunks.flatten = chunks'.flatten) :
+    virtualSize (runChunks r chunks).1 = virtualSize (runChunks g chunks').1 ∧
+    virtualSize (runChunks g chunks).1 = virtualSize (runChunks q chunks').1 := by
+  rw [vsize_raw r hr, vsize_gpt g hg, vsize_gpt g hg, vsize_qed q hq, h]
+  exact ⟨rfl, rfl⟩
+
 /-- **vsize_luks** — stream length minus payload offset (big-endian sectors at offset 104) times 512 -/
 theorem vsize_luks (s0 : Insp) (h0 : Insp.init .luks = some s0) (chunks : List Bytes) (po : Nat)
     (hpo : po < 2 ^ 32) (hlen : 108 ≤ chunks.flatten.length)
